@@ -20,6 +20,13 @@ var c03DurPool = []int64{0, 1, -1, 2, 10, 1000, 1e6, 1e9, -1e9, 5e9, 60e9, math.
 	math.MinInt64 + 1, 3, 7, 25e6, 50e6, 75e6}
 
 func genValueSpec(r *Rng) []float64 {
+	if r.Chance(12) {
+		// evenly spaced bounds as the library's own constructor makes them (start + i*width, rounded as computed), with
+		// widths that are not binary fractions: a bound is then not "the i-th multiple" in floating point
+		w := []float64{0.1, 0.05, 0.3, 0.7, 1e-3, 2.5e-10, 1.0 / 3, 1e15 / 3}[r.Intn(8)]
+		st := []float64{0, 0.1, -1, 1e6, -0.35}[r.Intn(5)]
+		return append([]float64(nil), tally.MustMakeLinearValueBuckets(st, w, r.Range(3, 24))...)
+	}
 	n := 0
 	switch r.Intn(10) {
 	case 0:
